@@ -138,6 +138,18 @@ impl TestBed {
         }
     }
 
+    /// Makes the fake rsync take `ms` milliseconds for the given module URI (None: no delay).
+    pub fn delay_module(&self, module: &str, ms: Option<u64>) {
+        let rel = module.strip_prefix("rsync://").unwrap_or(module);
+        let key: String = rel.chars().map(|c| if c == '/' { '_' } else { c }).collect();
+        let dir = self.dir.path().join("delay");
+        std::fs::create_dir_all(&dir).unwrap();
+        match ms {
+            Some(ms) => std::fs::write(dir.join(key), format!("{ms}")).unwrap(),
+            None => { let _ = std::fs::remove_file(dir.join(key)); }
+        }
+    }
+
     pub fn wipe_cache(&self) {
         let _ = std::fs::remove_dir_all(&self.cache);
         std::fs::create_dir_all(&self.cache).unwrap();
@@ -187,6 +199,10 @@ pub fn fake_rsync(args: &[String]) -> i32 {
     // the scheme is case-insensitive (routinator passes it on the way the URI spelled it)
     let rel = if src.len() >= 8 && src[..8].eq_ignore_ascii_case("rsync://") { &src[8..] } else { src.as_str() };
     let key: String = rel.chars().map(|c| if c == '/' { '_' } else { c }).collect();
+    if let Ok(ms) = std::fs::read_to_string(root.join("delay").join(&key)) {
+        // a slow transfer: the run is well under way when this module arrives
+        std::thread::sleep(std::time::Duration::from_millis(ms.trim().parse().unwrap_or(0)));
+    }
     if let Ok(code) = std::fs::read_to_string(root.join("fail").join(&key)) {
         eprintln!("fake rsync: configured failure for {src}");
         return code.trim().parse().unwrap_or(10)
